@@ -159,6 +159,12 @@ bool Action::stop() {
   if (timer_ev_ != nullptr)
     timer_ev_->disable();
 
+  //! 撤消还未派发的阻塞通知，已停止的动作不应再通知外部"被阻塞"
+  if (block_cb_run_id_ != 0) {
+    loop_.cancel(block_cb_run_id_);
+    block_cb_run_id_ = 0;
+  }
+
   is_base_func_invoked_ = false;
 
   onStop();
